@@ -5,8 +5,8 @@ CHECK = {
                     "namespaces unit: sequential histories only; namespace deletion is not exercised; a departed client is a cancelled request context"],
     "units": [
         unit("unwrap", "vault", ["vault/c18_test.go"], "^TestVerif_C18_UnwrapOnce$",
-             quick={"checks": 200, "shards": 1, "cap": 900},
-             thorough={"checks": 1500, "shards": 16, "cap": 3000},
+             quick={"checks": 200, "shards": 1, "cap": 900, "shrinktime": "10s"},
+             thorough={"checks": 1500, "shards": 16, "cap": 3000, "shrinktime": "10s"},
              # lock hand-over between two blocked request goroutines is decided by the Go runtime, so a failing schedule
              # need not fail again when rapid re-runs it; the verdict is a fact about the history that did happen
              flaky_is_violation=True),
